@@ -876,7 +876,7 @@ def check_C18(tier):
 
 
 def _scenario_classifier(name):
-    if name == 'shared_new_dir':
+    if name in ('shared_new_dir', 'three_threads'):
         return threadcheck.classify_p2
     if name in ('dup_file', 'dup_sub', 'dup_sub_cached', 'dup_sub_json_equal', 'dup_sub_json_equal_cached'):
         return threadcheck.classify_p1
@@ -911,6 +911,8 @@ def explore_threads(prop, tier, rep, names, bound, cap):
         classify, classes, proto = None, set(), None
         if name == 'shared_new_dir':
             classify, proto = threadcheck.classify_p2, ('P2', 2)
+        elif name == 'three_threads':
+            classify, proto = threadcheck.classify_p2, ('P2', 3)
         elif name in ('dup_file', 'dup_sub', 'dup_sub_cached', 'dup_sub_json_equal', 'dup_sub_json_equal_cached'):
             classify, proto = threadcheck.classify_p1, ('P1', 2)
         n, fails, e, maxdec, nseq, cl = results[name]
